@@ -11,7 +11,7 @@ def v(path, schema):
         ok = False
         print("INVALID", path, str(e).splitlines()[0])
 v("/verif/MANIFEST.json", "/root/.vp/MANIFEST.schema.json")
-for f in sorted(glob.glob("/verif/evidence/*.json")):
+for f in sorted(glob.glob("/verif/evidence/C*.json")):
     v(f, "/root/.vp/EVIDENCE.schema.json")
 print("ok" if ok else "FAILED")
 sys.exit(0 if ok else 1)
